@@ -9,6 +9,7 @@
 #include <cstring>
 #include <functional>
 #include <iostream>
+#include <new>
 #include <sstream>
 #include <string>
 #include <type_traits>
@@ -87,6 +88,43 @@ template <class T, bool A> struct IO<vec_t<T, 3, A>>
   }
   static void out(std::ostream &o, const vec_t<T, 3, A> &v) { IO<T>::out(o, v.x); IO<T>::out(o, v.y); IO<T>::out(o, v.z); }
 };
+// PADDED operands (vec_t<T,3,true>): the value of the padded shape is (x,y,z) only; the 4th storage slot padding_ is not a
+// component and no constructor initialises it.  Every padded operand is therefore built by placement-new into a buffer
+// pre-filled with a byte pattern (0x00 / 0xFF / 0xA5) through one of five construction forms, so that two operands of one
+// case carry DIFFERENT leftovers in the padding slot (pad mode 0..2) or the same ones (pad mode 3).  The case line carries
+// the directive "#<mode>,<form>" (see props/C04/check.py); operand j uses pattern (mode + j) % 3 and form (form + j) % 5.
+static int g_padmode = 0, g_padform = 0, g_padj = 0;
+static const unsigned char PADPAT[3] = {0x00, 0xFF, 0xA5};
+template <class T> struct IO<vec_t<T, 3, true>>
+{
+  typedef vec_t<T, 3, true> VA;
+  static VA rd(Tok &tk)
+  {
+    T c[3];
+    c[0] = IO<T>::rd(tk); c[1] = IO<T>::rd(tk); c[2] = IO<T>::rd(tk);
+    int j = g_padj++;
+    int pat = g_padmode == 3 ? 2 : (g_padmode + j) % 3;
+    int form = (g_padform + j) % 5;
+    alignas(16) unsigned char buf[sizeof(VA)];
+    memset(buf, PADPAT[pat], sizeof buf);
+    VA *p;
+    switch (form) {
+    case 0: p = new (buf) VA(c[0], c[1], c[2]); break;                                   // component-wise constructor
+    case 1: p = new (buf) VA(c[0]); (*p)[1] = c[1]; (*p)[2] = c[2]; break;               // broadcast constructor + stores through operator[]
+    case 2: { vec_t<T, 3> u(c[0], c[1], c[2]); p = new (buf) VA(u); } break;              // copy from the unpadded shape
+    case 3: p = new (buf) VA((const T *)c); break;                                        // pointer constructor
+    default: {                                                                             // copy of another padded vector + member stores
+      VA tmp(c[2], c[0], c[1]);
+      memset((char *)&tmp + 3 * sizeof(T), PADPAT[pat], sizeof(T));
+      p = new (buf) VA(tmp); p->x = c[0]; p->y = c[1]; p->z = c[2];
+    } break;
+    }
+    VA v = *p;
+    memset((char *)&v + 3 * sizeof(T), PADPAT[pat], sizeof(T));      // the leftover, made deterministic (independent of dead-store elimination)
+    return v;
+  }
+  static void out(std::ostream &o, const VA &v) { IO<T>::out(o, v.x); IO<T>::out(o, v.y); IO<T>::out(o, v.z); }
+};
 template <class T> struct IO<vec_t<T, 4>>
 {
   static vec_t<T, 4> rd(Tok &tk)
@@ -133,7 +171,11 @@ int main()
     std::istringstream is(line);
     Tok tk;
     std::string w;
-    while (is >> w) tk.t.push_back(w);
+    g_padmode = 0; g_padform = 0; g_padj = 0;
+    while (is >> w) {
+      if (w[0] == '#') { g_padmode = atoi(w.c_str() + 1) & 3; size_t c = w.find(','); g_padform = c == std::string::npos ? 0 : atoi(w.c_str() + c + 1); continue; }
+      tk.t.push_back(w);
+    }
     if (tk.t.empty()) { std::cout << "\n"; continue; }
     std::string name = tk.next();
     std::ostringstream o;
